@@ -16,7 +16,7 @@ pub const POOL2: &[&str] = &[
     "\"", "\\", "e\u{301}", "key", "x",
 ];
 
-pub const TWO_BYTE: &[char] = &['é', 'ß', 'ñ', '\u{7ff}', '\u{80}'];
+pub const TWO_BYTE: &[char] = &['é', 'ß', 'ñ', '\u{7ff}', '\u{80}', '\u{130}', '\u{131}', '\u{12f}', '\u{17e}'];
 pub const THREE_BYTE: &[char] = &['€', '한', '\u{ffff}', '\u{800}', '\u{ff5e}'];
 pub const FOUR_BYTE: &[char] = &['😀', '𝄞', '\u{10000}', '\u{10ffff}'];
 pub const CONTROL: &[char] = &['\u{0}', '\t', '\n', '\r', '\u{1b}', '\u{7f}'];
@@ -297,7 +297,9 @@ fn boundaries(s: &str) -> Vec<usize> {
     v
 }
 
-const BAD_AFTER_TILDE: &[&str] = &["2", "9", "a", "~", "é", "€", "😀", " ", "-", "x", "٣", "\u{0}", "~0", "~1"];
+const BAD_AFTER_TILDE: &[&str] = &["2", "9", "a", "~", "é", "€", "😀", " ", "-", "x", "٣", "\u{0}", "~0", "~1",
+    // code points whose low byte is '0' / '1' / '/' / '~' (what a truncating `c as u8` keeps)
+    "\u{130}", "\u{131}", "\u{12f}", "\u{17e}", "\u{4e30}", "\u{1f631}"];
 
 /// Malformed-pointer stream: corrupt a valid pointer text (DESIGN §4). The result is *usually* invalid.
 pub fn corrupt_ptr(rng: &mut Rng, valid: &str) -> String {
